@@ -18,33 +18,38 @@ Section VauthProofs.
 
   (* ---------------------------------------------------------------- one submission, all cases *)
 
+  Definition fee_taken (st : vstate) (payer : addr) (fee : Z) : addr -> Z := upd (bal st) payer (bal st payer - fee).
+
   (* everything submit_tx can do, in one statement *)
-  Lemma submit_tx_cases : forall st sub acc ok g fee st' r,
-    submit_tx st sub acc ok g fee = (st', r) ->
+  Lemma submit_tx_cases : forall st n p sub acc ok g fee st' r,
+    submit_tx st n p sub acc ok g fee = (st', r) ->
     match r with
     | SOk =>
         msg_valid verifies sub acc ok g = true /\ s_lower g = true /\ proofs st acc = None /\
-        fee + COST <= bal st sub /\
+        fee <= bal st p /\ COST <= fee_taken st p fee sub /\ (n < MAX_NESTED_LEVELS)%nat /\
         proofs st' = upd (proofs st) acc (Some g) /\
-        bal st' = upd (upd (bal st) sub (bal st sub - fee)) sub (bal st sub - fee - COST) /\
-        supply st' = supply st - COST /\ vested st' = vested st
-    | SRejBasic | SRejAnte => st' = st
-    | SRejConflict | SRejFunds | SPanicSave =>
-        msg_valid verifies sub acc ok g = true /\
-        proofs st' = proofs st /\ bal st' = upd (bal st) sub (bal st sub - fee) /\ supply st' = supply st /\ vested st' = vested st
+        bal st' = upd (fee_taken st p fee) sub (fee_taken st p fee sub - COST) /\
+        supply st' = supply st - COST /\ vested st' = vested st /\ acct st' = acct st
+    | SRejBasic | SRejAnte | SRejDepth => st' = st
+    | SRejBasicNested | SRejConflict | SRejFunds | SPanicSave =>
+        fee <= bal st p /\
+        proofs st' = proofs st /\ bal st' = fee_taken st p fee /\ supply st' = supply st /\ vested st' = vested st /\
+        acct st' = acct st
     end.
   Proof.
-    intros st sub acc ok g fee st' r. unfold Vauth.submit_tx.
-    destruct (msg_valid verifies sub acc ok g) eqn:Hv; cbn [negb]; [|intros H; inversion H; reflexivity].
-    destruct (bal st sub <? fee) eqn:Hfee; [intros H; inversion H; reflexivity|].
-    apply Z.ltb_ge in Hfee. unfold submit_msg, has. cbn [proofs bal supply vested].
-    destruct (proofs st acc) eqn:Hp; [intros H; inversion H; subst; cbn; auto|].
-    rewrite upd_same.
-    destruct (bal st sub - fee <? COST) eqn:Hc; [intros H; inversion H; subst; cbn; auto|].
+    intros st n p sub acc ok g fee st' r. unfold Vauth.submit_tx, fee_taken.
+    destruct ((n =? 0)%nat && negb (msg_valid verifies sub acc ok g)) eqn:Htop; [intros H; inversion H; reflexivity|].
+    destruct (bal st p <? fee) eqn:Hfee; [intros H; inversion H; reflexivity|].
+    apply Z.ltb_ge in Hfee.
+    destruct (MAX_NESTED_LEVELS <=? n)%nat eqn:Hd; [intros H; inversion H; reflexivity|].
+    apply Nat.leb_gt in Hd.
+    destruct (msg_valid verifies sub acc ok g) eqn:Hv; cbn [negb];
+      [|intros H; inversion H; subst; cbn [with_bal proofs bal supply vested acct]; auto 10].
+    unfold submit_msg, has, with_bal. cbn [proofs bal supply vested acct].
+    destruct (proofs st acc) eqn:Hp; [intros H; inversion H; subst; cbn; auto 10|].
+    destruct (upd (bal st) p (bal st p - fee) sub <? COST) eqn:Hc; [intros H; inversion H; subst; cbn; auto 10|].
     apply Z.ltb_ge in Hc.
-    destruct (s_lower g) eqn:Hl; cbn [negb]; intros H; inversion H; subst; cbn [proofs bal supply vested].
-    - repeat split; auto. lia.
-    - auto.
+    destruct (s_lower g) eqn:Hl; cbn [negb]; intros H; inversion H; subst; cbn [proofs bal supply vested acct]; auto 12.
   Qed.
 
   (* ---------------------------------------------------------------- proofs need a signature *)
@@ -52,25 +57,48 @@ Section VauthProofs.
   Lemma msg_valid_verifies : forall sub acc ok g, msg_valid verifies sub acc ok g = true -> verifies acc (s_bytes g) = true.
   Proof. intros sub acc ok g H. unfold msg_valid in H. apply andb_prop in H as [_ H]. exact H. Qed.
 
+  Lemma msg_valid_parts : forall sub acc ok g, msg_valid verifies sub acc ok g = true ->
+    ok = true /\ sub <> acc /\ s_prefix g = true /\ s_hex_ok g = true /\ verifies acc (s_bytes g) = true.
+  Proof.
+    intros sub acc ok g H. unfold msg_valid in H.
+    apply andb_prop in H as [H Hv]. apply andb_prop in H as [H Hh]. apply andb_prop in H as [H Hp]. apply andb_prop in H as [Ho Hn].
+    repeat split; auto. intros ->. rewrite N.eqb_refl in Hn. discriminate.
+  Qed.
+
+  Lemma vesting_tx_keeps : forall st vb rest sh,
+    proofs (fst (vesting_tx st vb rest sh)) = proofs st /\ bal (fst (vesting_tx st vb rest sh)) = bal st /\
+    supply (fst (vesting_tx st vb rest sh)) = supply st.
+  Proof.
+    intros. unfold vesting_tx. destruct (negb (accepted _ _ _ _)); [cbn; auto|].
+    destruct (run_msgs_ok sh && fresh _ _); cbn; auto.
+  Qed.
+
+  Lemma ica_packet_keeps : forall st p ok l,
+    proofs (ica_packet st p ok l) = proofs st /\ bal (ica_packet st p ok l) = bal st /\ supply (ica_packet st p ok l) = supply st.
+  Proof. intros. unfold ica_packet. destruct (fresh _ _); cbn; auto. Qed.
+
   Lemma step_proofs : forall st o a g,
     proofs (fst (step st o)) a = Some g ->
     proofs st a = Some g \/ (proofs st a = None /\ verifies a (s_bytes g) = true /\ s_lower g = true /\ s_prefix g = true /\ s_hex_ok g = true).
   Proof.
     intros st o a g. destruct o; cbn [Vauth.step].
-    - destruct (submit_tx st sub acc acc_ok g0 txfee) as [st' r] eqn:Hs. cbn [fst].
-      pose proof (submit_tx_cases _ _ _ _ _ _ _ _ Hs) as Hc. destruct r.
-      + destruct Hc as (Hv & Hl & Hn & _ & Hp & _). rewrite Hp. unfold upd.
+    - destruct (submit_tx st nest payer sub acc acc_ok g0 txfee) as [st' r] eqn:Hs. cbn [fst].
+      pose proof (submit_tx_cases _ _ _ _ _ _ _ _ _ _ Hs) as Hc. destruct r.
+      + destruct Hc as (Hv & Hl & Hn & _ & _ & _ & Hp & _). rewrite Hp. unfold upd.
         destruct (N.eqb a acc) eqn:E; [|auto]. apply N.eqb_eq in E. subst a.
-        intros H. inversion H; subst g0. right. split; [exact Hn|]. split; [eapply msg_valid_verifies; eauto|].
-        split; [exact Hl|]. unfold msg_valid in Hv.
-        apply andb_prop in Hv as [Hv _]. apply andb_prop in Hv as [Hv Hh]. apply andb_prop in Hv as [_ Hpre]. auto.
+        intros H. inversion H; subst g0. right. split; [exact Hn|].
+        destruct (msg_valid_parts _ _ _ _ Hv) as (_ & _ & Hpre & Hh & Hver). auto.
       + subst st'. auto.
       + subst st'. auto.
+      + subst st'. auto.
       + destruct Hc as (_ & Hp & _). rewrite Hp. auto.
       + destruct Hc as (_ & Hp & _). rewrite Hp. auto.
       + destruct Hc as (_ & Hp & _). rewrite Hp. auto.
-    - unfold vesting_tx. destruct (accepted _ _ _ _ && run_msgs_ok sh); cbn; auto.
-    - cbn. auto.
+      + destruct Hc as (_ & Hp & _). rewrite Hp. auto.
+    - destruct (vesting_tx st vb rest sh) as [s b] eqn:E. cbn [fst].
+      replace s with (fst (vesting_tx st vb rest sh)) by (rewrite E; reflexivity).
+      destruct (vesting_tx_keeps st vb rest sh) as (-> & _). auto.
+    - cbn [fst]. destruct (ica_packet_keeps st p signers_ok l) as (-> & _). auto.
     - cbn. auto.
     - cbn. auto.
   Qed.
@@ -84,16 +112,21 @@ Section VauthProofs.
   Lemma proof_final_step : forall st o a g, proofs st a = Some g -> proofs (fst (step st o)) a = Some g.
   Proof.
     intros st o a g Hp. destruct o; cbn [Vauth.step]; try (cbn; exact Hp).
-    - destruct (submit_tx st sub acc acc_ok g0 txfee) as [st' r] eqn:Hs. cbn [fst].
-      pose proof (submit_tx_cases _ _ _ _ _ _ _ _ Hs) as Hc. destruct r.
-      + destruct Hc as (_ & _ & Hn & _ & Hp' & _). rewrite Hp'. rewrite upd_other; [exact Hp|].
+    - destruct (submit_tx st nest payer sub acc acc_ok g0 txfee) as [st' r] eqn:Hs. cbn [fst].
+      pose proof (submit_tx_cases _ _ _ _ _ _ _ _ _ _ Hs) as Hc. destruct r.
+      + destruct Hc as (_ & _ & Hn & _ & _ & _ & Hp' & _). rewrite Hp'. rewrite upd_other; [exact Hp|].
         intros ->. congruence.
       + subst st'. exact Hp.
       + subst st'. exact Hp.
+      + subst st'. exact Hp.
       + destruct Hc as (_ & Hp' & _). rewrite Hp'. exact Hp.
       + destruct Hc as (_ & Hp' & _). rewrite Hp'. exact Hp.
       + destruct Hc as (_ & Hp' & _). rewrite Hp'. exact Hp.
-    - unfold vesting_tx. destruct (accepted _ _ _ _ && run_msgs_ok sh); cbn; exact Hp.
+      + destruct Hc as (_ & Hp' & _). rewrite Hp'. exact Hp.
+    - destruct (vesting_tx st vb rest sh) as [s b] eqn:E. cbn [fst].
+      replace s with (fst (vesting_tx st vb rest sh)) by (rewrite E; reflexivity).
+      destruct (vesting_tx_keeps st vb rest sh) as (-> & _). exact Hp.
+    - cbn [fst]. destruct (ica_packet_keeps st p signers_ok l) as (-> & _). exact Hp.
   Qed.
 
   Lemma proof_final : forall l st a g, proofs st a = Some g -> proofs (run st l) a = Some g.
@@ -109,50 +142,70 @@ Section VauthProofs.
     destruct (IH _ _ _ H) as [H1|H1]; [|auto]. apply proof_needs_signature_step in H1. exact H1.
   Qed.
 
-  (* a proven address can never be proved again: any later submission for it is refused, whatever the signature *)
-  Lemma proven_never_again : forall st sub acc ok g fee,
-    has st acc = true -> snd (submit_tx st sub acc ok g fee) <> SOk.
+  (* a proven address can never be proved again: any later submission for it is refused, whatever the signature,
+     the submitter, the payer and the nesting *)
+  Lemma proven_never_again : forall st n p sub acc ok g fee,
+    has st acc = true -> snd (submit_tx st n p sub acc ok g fee) <> SOk.
   Proof.
-    intros st sub acc ok g fee Hh. destruct (submit_tx st sub acc ok g fee) as [st' r] eqn:Hs. cbn [snd].
-    pose proof (submit_tx_cases _ _ _ _ _ _ _ _ Hs) as Hc. intros ->. destruct Hc as (_ & _ & Hn & _).
+    intros st n p sub acc ok g fee Hh. destruct (submit_tx st n p sub acc ok g fee) as [st' r] eqn:Hs. cbn [snd].
+    pose proof (submit_tx_cases _ _ _ _ _ _ _ _ _ _ Hs) as Hc. intros ->. destruct Hc as (_ & _ & Hn & _).
     unfold has in Hh. rewrite Hn in Hh. discriminate.
+  Qed.
+
+  (* over any history: once proven, every later submission for the address fails and the stored proof stays as it is *)
+  Lemma proven_never_again_history : forall l st n p sub acc ok g fee s,
+    proofs st acc = Some s ->
+    snd (submit_tx (run st l) n p sub acc ok g fee) <> SOk /\ proofs (run st l) acc = Some s.
+  Proof.
+    intros l st n p sub acc ok g fee s Hp. pose proof (proof_final l st acc s Hp) as Hf. split; [|exact Hf].
+    apply proven_never_again. unfold has. rewrite Hf. reflexivity.
   Qed.
 
   (* ---------------------------------------------------------------- cost *)
 
-  Lemma cost_exact_burnt : forall st sub acc ok g fee st',
-    submit_tx st sub acc ok g fee = (st', SOk) ->
-    bal st' sub = bal st sub - fee - COST /\
-    (forall x, x <> sub -> bal st' x = bal st x) /\
+  Definition paid (who payer : addr) (fee : Z) : Z := if N.eqb who payer then fee else 0.
+
+  Lemma cost_exact_burnt : forall st n p sub acc ok g fee st',
+    submit_tx st n p sub acc ok g fee = (st', SOk) ->
+    bal st' sub = bal st sub - COST - paid sub p fee /\
+    bal st' p = bal st p - fee - paid p sub COST /\
+    (forall x, x <> sub -> x <> p -> bal st' x = bal st x) /\
     supply st' = supply st - COST /\
     proofs st' acc = Some g /\ (forall x, x <> acc -> proofs st' x = proofs st x) /\
-    proofs st acc = None /\ verifies acc (s_bytes g) = true /\ fee + COST <= bal st sub.
+    proofs st acc = None /\ verifies acc (s_bytes g) = true /\ sub <> acc /\
+    COST + paid sub p fee <= bal st sub /\ fee <= bal st p.
   Proof.
-    intros st sub acc ok g fee st' Hs. pose proof (submit_tx_cases _ _ _ _ _ _ _ _ Hs) as Hc. cbn in Hc.
-    destruct Hc as (Hv & _ & Hn & Hb & Hp & Hbal & Hsup & _).
-    rewrite Hbal, Hp. repeat split; auto.
-    - apply upd_same.
-    - intros x Hx. rewrite !upd_other; auto.
+    intros st n p sub acc ok g fee st' Hs. pose proof (submit_tx_cases _ _ _ _ _ _ _ _ _ _ Hs) as Hc. cbn beta iota in Hc.
+    destruct Hc as (Hv & _ & Hn & Hfee & Hcost & _ & Hp & Hbal & Hsup & _).
+    destruct (msg_valid_parts _ _ _ _ Hv) as (_ & Hne & _ & _ & Hver).
+    unfold fee_taken in *. rewrite Hbal, Hp. unfold paid.
+    assert (Hsubb : upd (bal st) p (bal st p - fee) sub = bal st sub - (if N.eqb sub p then fee else 0)).
+    { unfold upd. destruct (N.eqb sub p) eqn:E; [apply N.eqb_eq in E; subst; reflexivity|lia]. }
+    repeat split; auto.
+    - rewrite upd_same. rewrite Hsubb. lia.
+    - unfold upd at 1. destruct (N.eqb p sub) eqn:E.
+      + apply N.eqb_eq in E. subst p. rewrite upd_same. lia.
+      + rewrite upd_same. lia.
+    - intros x Hx Hxp. rewrite !upd_other; auto.
     - apply upd_same.
     - intros x Hx. apply upd_other; exact Hx.
-    - eapply msg_valid_verifies; eauto.
+    - rewrite Hsubb in Hcost. lia.
   Qed.
 
-  Definition ante_passed (r : sres) : bool := match r with SRejBasic | SRejAnte => false | _ => true end.
+  Definition ante_passed (r : sres) : bool := match r with SRejBasic | SRejAnte | SRejDepth => false | _ => true end.
 
-  Lemma rejected_submission_inert : forall st sub acc ok g fee st' r,
-    submit_tx st sub acc ok g fee = (st', r) -> r <> SOk ->
+  Lemma rejected_submission_inert : forall st n p sub acc ok g fee st' r,
+    submit_tx st n p sub acc ok g fee = (st', r) -> r <> SOk ->
     (forall x, proofs st' x = proofs st x) /\ supply st' = supply st /\ vested st' = vested st /\
-    (forall x, x <> sub -> bal st' x = bal st x) /\
-    bal st' sub = bal st sub - (if ante_passed r then fee else 0).
+    (forall x, x <> p -> bal st' x = bal st x) /\
+    bal st' p = bal st p - (if ante_passed r then fee else 0).
   Proof.
-    intros st sub acc ok g fee st' r Hs Hr. pose proof (submit_tx_cases _ _ _ _ _ _ _ _ Hs) as Hc.
-    destruct r; try congruence; cbn [ante_passed].
-    - subst st'. repeat split; auto. lia.
-    - subst st'. repeat split; auto. lia.
-    - destruct Hc as (_ & Hp & Hb & Hsup & Hv). rewrite Hp, Hb. repeat split; auto. intros x Hx. apply upd_other; auto. apply upd_same.
-    - destruct Hc as (_ & Hp & Hb & Hsup & Hv). rewrite Hp, Hb. repeat split; auto. intros x Hx. apply upd_other; auto. apply upd_same.
-    - destruct Hc as (_ & Hp & Hb & Hsup & Hv). rewrite Hp, Hb. repeat split; auto. intros x Hx. apply upd_other; auto. apply upd_same.
+    intros st n p sub acc ok g fee st' r Hs Hr. pose proof (submit_tx_cases _ _ _ _ _ _ _ _ _ _ Hs) as Hc.
+    unfold fee_taken in Hc.
+    destruct r; try congruence; cbn [ante_passed];
+      try (subst st'; repeat split; auto; lia);
+      (destruct Hc as (_ & Hp & Hb & Hsup & Hv & _); rewrite Hp, Hb; repeat split; auto;
+       [intros x Hx; apply upd_other; auto | apply upd_same]).
   Qed.
 
   (* ---------------------------------------------------------------- vesting needs a proof *)
@@ -170,6 +223,9 @@ Section VauthProofs.
   Lemma memN_in : forall x l, memN x l = true -> In x l.
   Proof. intros x l H. unfold memN in H. apply existsb_exists in H as (y & Hy & E). apply N.eqb_eq in E. subst. exact Hy. Qed.
 
+  Lemma in_memN : forall x l, In x l -> memN x l = true.
+  Proof. intros x l H. unfold memN. apply existsb_exists. exists x. split; [exact H|apply N.eqb_refl]. Qed.
+
   Lemma default_has_vesting : forall k, memN (tid_vesting k) default_disabled = true.
   Proof. destruct k; reflexivity. Qed.
 
@@ -178,16 +234,17 @@ Section VauthProofs.
     is_ica o = false -> vested (fst (step st o)) a = true -> vested st a = true \/ has st a = true.
   Proof.
     intros st o a Hi. destruct o; cbn [Vauth.step]; try discriminate; try (cbn; auto; fail).
-    - destruct (submit_tx st sub acc acc_ok g txfee) as [st' r] eqn:Hs. cbn [fst].
-      pose proof (submit_tx_cases _ _ _ _ _ _ _ _ Hs) as Hc. destruct r.
-      + destruct Hc as (_ & _ & _ & _ & _ & _ & _ & Hv). rewrite Hv. auto.
-      + subst; auto.
-      + subst; auto.
-      + destruct Hc as (_ & _ & _ & _ & Hv). rewrite Hv. auto.
-      + destruct Hc as (_ & _ & _ & _ & Hv). rewrite Hv. auto.
-      + destruct Hc as (_ & _ & _ & _ & Hv). rewrite Hv. auto.
+    - destruct (submit_tx st nest payer sub acc acc_ok g txfee) as [st' r] eqn:Hs. cbn [fst].
+      pose proof (submit_tx_cases _ _ _ _ _ _ _ _ _ _ Hs) as Hc. destruct r;
+        try (subst; auto; fail).
+      + destruct Hc as (_ & _ & _ & _ & _ & _ & _ & _ & _ & Hv & _). rewrite Hv. auto.
+      + destruct Hc as (_ & _ & _ & _ & Hv & _). rewrite Hv. auto.
+      + destruct Hc as (_ & _ & _ & _ & Hv & _). rewrite Hv. auto.
+      + destruct Hc as (_ & _ & _ & _ & Hv & _). rewrite Hv. auto.
+      + destruct Hc as (_ & _ & _ & _ & Hv & _). rewrite Hv. auto.
     - unfold vesting_tx.
-      destruct (accepted default_disabled MDeliver (env_at st vb rest) sh && run_msgs_ok sh) eqn:Hacc; cbn [fst vested]; [|auto].
+      destruct (accepted default_disabled MDeliver (env_at st vb rest) sh) eqn:Hacc; cbn [negb fst vested]; [|auto].
+      destruct (run_msgs_ok sh && fresh _ _); cbn [fst vested]; [|auto].
       unfold mark. intros H. apply orb_prop in H as [H|H]; [auto|]. right.
       apply memN_in in H. apply in_targets in H as (r & k & Hin).
       destruct (vesting_handler_needs_proof default_disabled (env_at st vb rest) sh r k a default_has_vesting Hin) as [_ Hp].
@@ -212,8 +269,70 @@ Section VauthProofs.
     - apply has_final_step. exact H.
   Qed.
 
+  (* a vesting-creation transaction for a target without a proof is refused by the ante handler (nothing executes),
+     wherever the message sits: top level beside anything, or nested in MsgExec at any depth *)
+  Lemma unproven_target_rejected : forall st vb rest sh r k a,
+    has st a = false ->
+    In (r, MVesting k a) (map (pair TopLevel) (msgs sh) ++ map (pair InAuthzExec) (nested_all (msgs sh))) ->
+    vesting_tx st vb rest sh = (st, VAnteRej).
+  Proof.
+    intros st vb rest sh r k a Hn Hin. unfold vesting_tx.
+    destruct (accepted default_disabled MDeliver (env_at st vb rest) sh) eqn:Hacc; cbn [negb]; [|reflexivity].
+    exfalso.
+    assert (Hex : In (r, MVesting k a) (executed_tx default_disabled (env_at st vb rest) sh)).
+    { unfold executed_tx. rewrite Hacc. exact Hin. }
+    destruct (vesting_handler_needs_proof default_disabled (env_at st vb rest) sh r k a default_has_vesting Hex) as [_ Hp].
+    cbn in Hp. rewrite Hn in Hp. discriminate.
+  Qed.
+
   (* ICA packets break it *)
   Lemma ica_creates_without_proof : forall st k a,
+    acct st a = false ->
     vested (fst (step st (OIcaPacket ica_default true [MVesting k a]))) a = true.
-  Proof. intros st k a. cbn. unfold mark. cbn. rewrite N.eqb_refl. apply orb_true_r. Qed.
+  Proof.
+    intros st k a Hf. cbn. unfold ica_packet. cbn. rewrite Hf. cbn. unfold mark. cbn. rewrite N.eqb_refl. apply orb_true_r.
+  Qed.
+
+  (* ---------------------------------------------------------------- supply over a history *)
+
+  (* number of successful submissions / net amount minted by other modules along a history *)
+  Fixpoint n_ok (st : vstate) (l : list vop) : Z :=
+    match l with
+    | [] => 0
+    | o :: r => (match snd (step st o) with RSubmit SOk => 1 | _ => 0 end) + n_ok (fst (step st o)) r
+    end.
+
+  Fixpoint minted (l : list vop) : Z :=
+    match l with
+    | [] => 0
+    | OMint _ amt :: r => amt + minted r
+    | _ :: r => minted r
+    end.
+
+  Lemma step_supply : forall st o,
+    supply (fst (step st o)) =
+    supply st - COST * (match snd (step st o) with RSubmit SOk => 1 | _ => 0 end) + (match o with OMint _ amt => amt | _ => 0 end).
+  Proof.
+    intros st o. destruct o; cbn [Vauth.step].
+    - destruct (submit_tx st nest payer sub acc acc_ok g txfee) as [st' r] eqn:Hs. cbn [fst snd].
+      pose proof (submit_tx_cases _ _ _ _ _ _ _ _ _ _ Hs) as Hc. destruct r; try (subst st'; lia).
+      + destruct Hc as (_ & _ & _ & _ & _ & _ & _ & _ & Hsup & _). lia.
+      + destruct Hc as (_ & _ & _ & Hsup & _). lia.
+      + destruct Hc as (_ & _ & _ & Hsup & _). lia.
+      + destruct Hc as (_ & _ & _ & Hsup & _). lia.
+      + destruct Hc as (_ & _ & _ & Hsup & _). lia.
+    - destruct (vesting_tx st vb rest sh) as [s b] eqn:E. cbn [fst snd].
+      replace s with (fst (vesting_tx st vb rest sh)) by (rewrite E; reflexivity).
+      destruct (vesting_tx_keeps st vb rest sh) as (_ & _ & ->). lia.
+    - cbn [fst snd]. destruct (ica_packet_keeps st p signers_ok l) as (_ & _ & ->). lia.
+    - cbn. lia.
+    - cbn. lia.
+  Qed.
+
+  (* the only thing the module ever does to the supply: burn exactly COST per stored proof *)
+  Lemma supply_history : forall l st, supply (run st l) = supply st - COST * n_ok st l + minted l.
+  Proof.
+    induction l as [|o l IH]; intros st; cbn [Vauth.run n_ok minted]; [lia|].
+    rewrite IH, step_supply. destruct o; lia.
+  Qed.
 End VauthProofs.
